@@ -5,6 +5,7 @@ package harness
 // comparison after every call. No scheduler: the world runs in direct mode.
 
 import (
+	"bytes"
 	"context"
 	"os"
 
@@ -705,6 +706,48 @@ func (s *Sim) legacyCheck() {
 	}
 	// a connector stored by a pre-0.4.1 server
 	w.db.durable["connector:connector:old-src"] = []byte(`{"Type":"Source","Data":{"XID":"old-src","XConfig":{"Name":"old","Settings":{"k":"v"},"Plugin":"builtin:file","PipelineID":"golden-pipeline","ProcessorIDs":["p1"]},"XState":{"Position":"b2xkLXBvcw=="},"XProvisionedBy":0,"XCreatedAt":"2022-01-02T03:04:05Z","XUpdatedAt":"2022-01-02T03:04:06+02:00"}}`)
+	// ... and a generated set of further ones: different types, names, key sets, processor
+	// lists, positions and timestamps, with optional fields absent
+	type oldDoc struct {
+		id, typ, name, plugin string
+		settings              map[string]string
+		procs                 []string
+		pos                   []byte
+		created, updated      time.Time
+	}
+	lr := rand.New(rand.NewPCG(uint64(w.cfg.Seed), 0x041))
+	var olds []oldDoc
+	for i, k := 0, 1+lr.IntN(4); i < k; i++ {
+		d := oldDoc{id: fmt.Sprintf("old-%d", i), typ: pick(lr, "Source", "Destination"), name: unicodeSamples[lr.IntN(len(unicodeSamples))], plugin: pick(lr, "builtin:file", "builtin:kafka", "standalone:x"),
+			settings: genSettings(lr), created: time.Unix(1600000000+int64(lr.IntN(1e8)), int64(lr.IntN(1e9))).UTC(), updated: time.Unix(1700000000+int64(lr.IntN(1e7)), 0).In(time.FixedZone("", 3600*(lr.IntN(25)-12)))}
+		for j, m := 0, lr.IntN(4); j < m; j++ {
+			d.procs = append(d.procs, fmt.Sprintf("old-%d-p%d", i, lr.IntN(9)))
+		}
+		if lr.IntN(4) != 0 {
+			d.pos = make([]byte, 1+lr.IntN(12))
+			for j := range d.pos {
+				d.pos[j] = byte(lr.IntN(256))
+			}
+		}
+		cfg := map[string]any{"Name": d.name, "Plugin": d.plugin, "PipelineID": "golden-pipeline"}
+		if d.settings != nil {
+			cfg["Settings"] = d.settings
+		}
+		if d.procs != nil {
+			cfg["ProcessorIDs"] = d.procs
+		}
+		data := map[string]any{"XID": d.id, "XConfig": cfg, "XProvisionedBy": 0, "XCreatedAt": d.created, "XUpdatedAt": d.updated}
+		if d.pos != nil {
+			if d.typ == "Source" {
+				data["XState"] = map[string]any{"Position": d.pos}
+			} else {
+				data["XState"] = map[string]any{"Positions": map[string][]byte{"s": d.pos}}
+			}
+		}
+		raw, _ := json.Marshal(map[string]any{"Type": d.typ, "Data": data})
+		w.db.durable["connector:connector:"+d.id] = raw
+		olds = append(olds, d)
+	}
 	// the server starts on that store (old connector documents are migrated when the store is opened)
 	env := &apiEnv{st: w.newStack()}
 	if err := env.st.proc.Init(ctx); err != nil {
@@ -743,6 +786,37 @@ func (s *Sim) legacyCheck() {
 	}
 	if st, ok := old.State.(connector.SourceState); !ok || string(st.Position) != "old-pos" || old.Plugin != "builtin:file" || old.PipelineID != "golden-pipeline" || len(old.ProcessorIDs) != 1 {
 		w.violate("C17", "legacy-position-changed", fmt.Sprintf("pre-0.4.1 connector migrated as %+v state %#v", old.Config, old.State))
+	}
+	for _, d := range olds {
+		c, err := env.st.conn.Get(ctx, d.id)
+		if err != nil {
+			w.violate("C17", "legacy-entity-missing", fmt.Sprintf("pre-0.4.1 connector %s not migrated: %v", d.id, err))
+			return
+		}
+		var gotPos []byte
+		switch st := c.State.(type) {
+		case connector.SourceState:
+			gotPos = st.Position
+		case connector.DestinationState:
+			gotPos = st.Positions["s"]
+		}
+		sameSettings := len(c.Config.Settings) == len(d.settings)
+		for k, v := range d.settings {
+			if got, ok := c.Config.Settings[k]; !ok || got != v {
+				sameSettings = false
+			}
+		}
+		sameProcs := len(c.ProcessorIDs) == len(d.procs)
+		for i := 0; sameProcs && i < len(d.procs); i++ {
+			sameProcs = c.ProcessorIDs[i] == d.procs[i]
+		}
+		if !sameSettings || !sameProcs || c.Config.Name != d.name || c.Plugin != d.plugin || c.PipelineID != "golden-pipeline" || c.Type.String() != d.typ ||
+			!bytes.Equal(gotPos, d.pos) || !c.CreatedAt.Equal(d.created) || !c.UpdatedAt.Equal(d.updated) {
+			w.violate("C17", "legacy-connector-changed", fmt.Sprintf("pre-0.4.1 connector %s (one of %d) was stored as type=%s name=%q plugin=%s settings=%v processors=%v position=%x created=%s updated=%s and is read back as type=%s name=%q plugin=%s settings=%v processors=%v position=%x created=%s updated=%s",
+				d.id, len(olds)+1, d.typ, d.name, d.plugin, d.settings, d.procs, d.pos, d.created.Format(time.RFC3339Nano), d.updated.Format(time.RFC3339Nano),
+				c.Type, c.Config.Name, c.Plugin, c.Config.Settings, c.ProcessorIDs, gotPos, c.CreatedAt.Format(time.RFC3339Nano), c.UpdatedAt.Format(time.RFC3339Nano)))
+			return
+		}
 	}
 	// and the migrated form survives one more restart unchanged
 	fresh := w.newStack()
